@@ -19,8 +19,8 @@ type unit struct {
 	Evaluations int64            `json:"evaluations"`
 	Classes     map[string]int64 `json:"classes"`
 	Distinct    map[uint64]struct{}
-	Samples     []any          `json:"samples"`
-	sampleKeys  map[string]int // samples kept per class key
+	Samples     []any            `json:"samples"`
+	sampleKeys  map[string]int   // samples kept per class key
 	Known       map[string]int64 `json:"known"`
 	Excluded    int64            `json:"excluded_known"`
 	Notes       map[string]string
